@@ -1531,10 +1531,12 @@ def stage_corr_acnorm(ctx, env):
 class TermCodec:
     """holpy terms <-> the model's named terms; atoms are numbered per (kind, name, type)."""
 
-    def __init__(self, env):
+    def __init__(self, env, own_names=False):
         self.env = env
         self.ids = {}
         self.rev = []
+        self.own_names = own_names      # open binders with names of the codec's own (not dest_abs)
+        self.nb = 0
 
     def atom(self, t):
         key = (t.ty, t.name, str(t.T))
@@ -1547,7 +1549,12 @@ class TermCodec:
         if t.is_comb():
             return ["c", self.enc(t.fun), self.enc(t.arg)]
         if t.is_abs():
-            v, body = t.dest_abs()
+            if self.own_names:
+                self.nb += 1
+                v = self.env.term.Var("_bv%d" % self.nb, t.var_T)
+                body = t.subst_bound(v)
+            else:
+                v, body = t.dest_abs()
             return ["l", self.atom(v), self.enc(body)]
         if t.is_bound():
             raise ValueError("open term")
@@ -1685,6 +1692,242 @@ def stage_corr_conv(ctx, env):
                 judge(env, ctx, "logic.conv.%s" % ce[0], model_ce_to_impl(ce), t)
 
 
+# ====================================================================== binder-name clashes (de Bruijn inputs)
+CLASH_NAMES = ["y", "m", "x", "A"]
+
+
+class ClashGen:
+    """Terms built directly in de Bruijn form (`Abs(name, T, body)`, `Bound i`) in which the binder's
+    recorded NAME also occurs free in its body: as `Var(name, nat)` (same type), as a variable of
+    another type (`name :: bool` in an `if`, `name :: nat => nat` applied), as the schematic variable
+    `?name`; nested binders carry equal names; and a left side of one of the toy rewrite rules
+    (`_ + 0`, `0 + _`, `1 * _`, `Suc _ + _`) sits under the binder and mentions both the bound and the
+    clashing free variable.  A conversion that opens the binder with the recorded name instead of a
+    fresh one captures the free variable and answers about another term."""
+
+    def __init__(self, env, rng):
+        self.env, self.rng = env, rng
+        self.T = env.term
+        self.nat, self.bool = env.T["nat"], env.T["bool"]
+        # explicit constants: `a + b` on terms asks for the type of `a`, which a loose Bound has not
+        self.add = lambda a, b: env.nat.plus(a, b)    # noqa
+        self.mul = lambda a, b: env.nat.times(a, b)   # noqa
+        self.eq = lambda a, b: env.term.equals(self.nat)(a, b)  # noqa
+
+    def free(self, nm):
+        """An occurrence of the clashing name that is NOT the bound variable."""
+        T, r = self.T, self.rng.random()
+        if r < 0.6:
+            return T.Var(nm, self.nat)
+        if r < 0.75:
+            return T.SVar(nm, self.nat)
+        if r < 0.9:
+            return T.Var(nm, self.env.TFun(self.nat, self.nat))(self.atom_other())
+        return self.env.logic.if_t(self.nat)(T.Var(nm, self.bool), self.atom_other(), T.Nat(2))
+
+    def atom_other(self):
+        return self.rng.choice([self.env.v["n"], self.env.v["k"], self.T.Nat(self.rng.choice([0, 1, 2, 3]))])
+
+    def leaf(self, names):
+        """names: binder names, innermost first (index = de Bruijn index)."""
+        T, rng = self.T, self.rng
+        r = rng.random()
+        if names and r < 0.4:
+            return T.Bound(rng.randrange(len(names)))
+        if names and r < 0.8:
+            return self.free(rng.choice(names))
+        return self.atom_other()
+
+    def redex(self, names, d):
+        """An instance of a toy rule's left side mentioning the bound and the clashing variable."""
+        T, rng, env = self.T, self.rng, self.env
+        a, b = self.N(names, d - 1), self.N(names, d - 1)
+        c = rng.randint(0, 4)
+        if c == 0:
+            return self.add(a, T.Nat(0))
+        if c == 1:
+            return self.add(T.Nat(0), a)
+        if c == 2:
+            return self.mul(T.Nat(1), a)
+        if c == 3:
+            return self.add(env.nat.Suc(a), b)
+        return self.add(self.add(a, T.Nat(0)), b)
+
+    def N(self, names, d):
+        T, rng, env = self.T, self.rng, self.env
+        if d <= 0 or rng.random() < 0.25:
+            return self.leaf(names)
+        c = rng.randint(0, 7)
+        if c <= 2:
+            return self.redex(names, d)
+        if c == 3:
+            return self.add(self.N(names, d - 1), self.N(names, d - 1))
+        if c == 4:
+            return self.mul(self.N(names, d - 1), self.N(names, d - 1))
+        if c == 5:
+            return env.v["f"](self.N(names, d - 1))
+        if c == 6:      # nested binder with an equal (or another clashing) name, applied: a beta-redex
+            nm = names[0] if names and rng.random() < 0.7 else rng.choice(CLASH_NAMES)
+            return T.Abs(nm, self.nat, self.N([nm] + list(names), d - 1))(self.N(names, d - 1))
+        return env.v["g"](self.N(names, d - 1), self.leaf(names))
+
+    def lam(self, names, d, depth=1):
+        """%nm. ... (depth nested binders, mostly with equal names) in de Bruijn form."""
+        rng = self.rng
+        nm = names[0] if names and rng.random() < 0.7 else rng.choice(CLASH_NAMES)
+        inner = [nm] + list(names)
+        if depth > 1:
+            return self.T.Abs(nm, self.nat, self.lam(inner, d, depth - 1))
+        body = self.redex(inner, d) if rng.random() < 0.7 else self.N(inner, d)
+        # make sure the bound variable and a clashing free one both occur
+        if rng.random() < 0.8:
+            body = self.add(body, self.T.Var(nm, self.nat)) if rng.random() < 0.5 else self.add(self.add(self.T.Bound(0), self.T.Nat(0)), body)
+        return self.T.Abs(nm, self.nat, body)
+
+    def B(self, names, d):
+        """A formula whose arguments are clash terms (for quantifiers)."""
+        T, rng, env = self.T, self.rng, self.env
+        c = rng.randint(0, 3)
+        if c == 0:
+            return self.eq(self.redex(names, d), self.N(names, d))
+        if c == 1:
+            return env.nat.less_eq(self.redex(names, d), self.N(names, d))
+        if c == 2:
+            return T.Or(env.v["P"](self.leaf(names)), T.Or(env.v["A"], env.v["P"](self.leaf(names))))
+        return env.v["P"](self.redex(names, d))
+
+    def term(self, shape=None):
+        """shape: 'abs' bare abstraction, 'abs2' two nested, 'app' applied abstraction,
+        'all' / 'ex' quantifier, 'arg' abstraction-valued argument inside a larger term."""
+        T, rng, env = self.T, self.rng, self.env
+        shape = shape or rng.choice(["abs", "abs", "abs2", "app", "all", "ex", "arg", "eq"])
+        d = rng.randint(1, 2)
+        if shape == "abs":
+            return self.lam([], d)
+        if shape == "abs2":
+            return self.lam([], d, depth=rng.choice([2, 2, 3]))
+        if shape == "app":
+            return self.lam([], d)(self.leaf(rng.sample(CLASH_NAMES, 1)))
+        if shape in ("all", "ex"):
+            nm = rng.choice(CLASH_NAMES)
+            q = T.forall if shape == "all" else T.exists
+            return q(self.nat)(T.Abs(nm, self.nat, self.B([nm], d)))
+        if shape == "eq":
+            return T.equals(env.TFun(self.nat, self.nat))(self.lam([], d), self.lam([], d))
+        return self.add(self.lam([], d)(self.add(T.Nat(0), T.Var(rng.choice(CLASH_NAMES), self.nat))), T.Var("y", self.nat))
+
+
+CLASH_RULES = [("add_0_right", False), ("nat_plus_def_1", False), ("mult_1_left", False), ("nat_plus_def_2", False),
+               ("add_comm", False), ("add_1_right", True)]
+
+
+def gen_clash_case(env, rng, model_only=False):
+    """(label, model conversion expression, term).  The expression is in the fragment the Lean
+    model interprets when `model_only`; otherwise beta_norm_conv and sort_conj/sort_disj (which run
+    top_sweep_conv over their result) take part too."""
+    g = ClashGen(env, rng)
+    outer = rng.choice(["abs", "top", "bottom", "topsweep", "sub", "topsweep", "top", "bottom"] +
+                       ([] if model_only else ["beta_norm", "sort", "int_norm"]))
+    if outer == "beta_norm":
+        if rng.random() < 0.6:
+            # a beta-redex under a binder whose name clashes with a free variable of the body
+            T = env.term
+            nm = rng.choice(CLASH_NAMES)
+            nm2 = nm if rng.random() < 0.5 else rng.choice(CLASH_NAMES)
+            redex = T.Abs(nm2, g.nat, g.add(T.Bound(0), g.N([nm2, nm], 1)))(g.leaf([nm]))
+            body = g.add(redex, g.free(nm)) if rng.random() < 0.5 else g.add(g.add(T.Bound(0), T.Var(nm, g.nat)), redex)
+            t = T.Abs(nm, g.nat, body)
+            if rng.random() < 0.4:
+                t = t(g.atom_other())
+            return "logic.conv.beta_norm_conv", ["beta_norm"], t
+        return "logic.conv.beta_norm_conv", ["beta_norm"], g.term(rng.choice(["app", "arg", "abs", "abs2"]))
+    if outer == "sort":
+        T = env.term
+        nm = rng.choice(CLASH_NAMES)
+        P = env.v["P"]
+        dis = T.Or(P(T.Var(nm, g.nat)), T.Or(env.v[rng.choice("AB")], P(T.Bound(0))))
+        if rng.random() < 0.5:
+            dis = T.Or(P(T.Bound(0)), T.Or(env.v["B"], T.Or(P(T.Var(nm, g.nat)), env.v["A"])))
+        q = T.forall(g.nat)(T.Abs(nm, g.nat, dis))
+        if rng.random() < 0.5:
+            return "data.proplogic.sort_conj", ["cls", "data.proplogic.sort_conj"], T.And(env.v["C"], T.And(q, env.v["A"]))
+        return "data.proplogic.sort_disj", ["cls", "data.proplogic.sort_disj"], T.Or(T.Not(q), env.v["A"])
+    if outer == "int_norm":
+        # an atom of the integer normaliser that contains a binder: its final top_conv sweeps reach inside
+        T = env.term
+        I = env.T["int"]
+        nm = rng.choice(["i", "y"])
+        F = T.Var("F", env.TFun(env.TFun(I, I), I))
+        body = T.plus(I)(T.times(I)(T.Int(1), T.Bound(0)), T.Var(nm, I)) if rng.random() < 0.5 else T.times(I)(T.Var(nm, I) ** 1, T.Bound(0))
+        return "data.integer.int_norm_conv", ["cls", "data.integer.int_norm_conv"], F(T.Abs(nm, I, body)) + env.v["j"]
+    rules = [r for r in CLASH_RULES if not (outer in ("top", "bottom") and r[0] == "add_comm")]
+    base = ["rule"] + list(rng.choice(rules))
+    if rng.random() < 0.3:
+        base = ["every", ["try", base], ["try", ["rule"] + list(rng.choice(rules[:4]))]]
+    shape = None
+    if outer == "abs":
+        depth = rng.choice([1, 1, 2])
+        inner = rng.choice([["topsweep", base], ["try", ["arg1", base]], ["bottom", base], ["try", base], ["top", base]])
+        ce = ["abs", inner] if depth == 1 else ["abs", ["abs", inner]]
+        shape = "abs" if depth == 1 else "abs2"
+    elif outer == "sub":
+        ce = ["sub", rng.choice([["topsweep", base], ["bottom", base], ["sub", ["topsweep", base]]])]
+        shape = rng.choice(["abs", "abs2", "app"])
+    else:
+        ce = [outer, base]
+    if rng.random() < 0.25 and outer != "abs":
+        ce = ["then", ce, ["try", ["topsweep", ["rule"] + list(rng.choice(rules[:4]))]]]
+    label = "logic.conv.%s_conv" % {"topsweep": "top_sweep"}.get(outer, outer)
+    return label, ce, g.term(shape)
+
+
+def stage_clash(ctx, env):
+    """Binder-traversing conversions on de Bruijn inputs whose bound names clash with free (and
+    schematic) variables of the body: the oracle, and the Lean combinator model on the same inputs
+    (the codec opens binders with names of its own, fresh for the whole term)."""
+    rng = ctx.rng("clash")
+    n = ctx.scale(400, 6000)
+    cases, lines = [], []
+    for it in range(n):
+        model_only = it % 2 == 0
+        try:
+            label, mce, t = gen_clash_case(env, rng, model_only)
+        except Exception as e:  # noqa  building the input goes through the term constructors
+            ctx.count("clash:gen-%s" % type(e).__name__)
+            continue
+        in_model = mce[0] not in ("beta_norm", "cls")
+        ce = model_ce_to_impl(mce) if in_model else mce
+        o = judge(env, ctx, label, ce, t)
+        ctx.case(("clash", json.dumps(mce), str(tj(t))), nontrivial=(o.kind == "ok" and o.rhs != t))
+        ctx.count("clash:%s:%s" % (label.split(".")[-1], o.kind.split(":")[0] if o.kind.startswith("own-error") else o.kind))
+        if o.kind == "ok" and o.rhs != t:
+            ctx.count("clash:fired-under-binder")
+        if in_model and (o.kind == "ok" or o.kind.startswith("own-error")):
+            codec = TermCodec(env, own_names=True)
+            try:
+                line = sexp.dumps(["conv", 400, model_ce_to_sexp(env, codec, mce), codec.enc(t)])
+            except ValueError:
+                continue
+            impl = ("ok", t, o.rhs) if o.kind == "ok" else ("err", ERRMAP.get(o.kind.split(":")[1], o.kind.split(":")[1]))
+            cases.append((mce, t, impl, codec))
+            lines.append(line)
+    out = ctx.lean_driver(EXE, lines) if lines else []
+    if out is None:
+        ctx.broken("correspondence:c10:driver", "model driver unavailable")
+        return
+    nd = 0
+    for (mce, t, impl, codec), m in zip(cases, out):
+        ms = sexp.loads(m)
+        model = ("bad-op",) if ms == "bad-op" else ("ok", codec.dec(ms[1]), codec.dec(ms[2])) if ms[0] == "ok" else ("err", ms[1])
+        agree = impl == model
+        ctx.count("corr:clash:%s" % ("agree" if agree else "DISAGREE"))
+        if not agree:
+            nd += 1
+            if nd <= 3:
+                ctx.broken("correspondence:c10:clash", "%s on %s: impl=%s model=%s" % (json.dumps(mce), t, [str(x) for x in impl], [str(x) for x in model]))
+                ctx.coverage["disagreements_checked"] += 1
+
+
 # ====================================================================== entry points
 def run(ctx):
     ctx.coverage["rule"] = (
@@ -1694,7 +1937,11 @@ def run(ctx):
         "formulas over 4 atoms + P n, terms with lambda/forall/exists and beta/eta redexes for the combinators (random nestings of "
         "the combinators over 19 base conversions incl. conditional rewrites); non-trivial = the conversion succeeded and changed "
         "the term; distinct by (conversion expression, term). canonicity: pairs (t, rearrangement of t) by commutativity, "
-        "associativity, distribution, unit laws, numeral splitting, doubling, Suc/+1, minus unfolding, duplicated/permuted members.")
+        "associativity, distribution, unit laws, numeral splitting, doubling, Suc/+1, minus unfolding, duplicated/permuted members. "
+        "binder clashes: de Bruijn terms Abs(name, T, body) whose bound name also occurs free in the body (same type, other types, "
+        "schematic), nested binders with equal names, a rule's left side under the binder; for abs/top/bottom/top_sweep/sub/"
+        "beta_norm conversions, sort_conj/sort_disj and int_norm_conv; judged by the oracle and (combinators) by the Lean model, whose "
+        "codec opens binders with names of its own.")
     ok = ctx.lean_props(["Holpy.C10.Props"], exes=[EXE])
     if ctx.tier == "thorough" and ok:
         ctx.lean_check_modules(["Holpy.C10.Props"])
@@ -1714,6 +1961,7 @@ def run(ctx):
     ctx.log("oracle done: %d cases" % ctx.coverage["evaluations"])
     stage_canon(ctx, env)
     ctx.log("canonicity done")
+    stage_clash(ctx, env)
     stage_corr_acnorm(ctx, env)
     stage_corr_conv(ctx, env)
     for s in (stage_corr_natnorm,):
